@@ -106,6 +106,64 @@ def base_rows(ctx: Ctx, data):
     return n
 
 
+def published_tables(ctx: Ctx, data):
+    """The tables the package PUBLISHES (Model.truth_table, plain and reversed, on the class and on an instance — the doc
+    directive renders the reversed form) must be the graph that was compared with the documented tables: every
+    (inputs[i], outputs[i]) pair and every mapping entry equals the regenerated row; all value tuples are listed once."""
+    import itertools
+    from pytableaux.logics import registry
+    from pytableaux.lang import Operator
+    n = 0
+    for lg, d in sorted(data.items()):
+        if 'fatal' in d:
+            continue
+        logic = registry(lg)
+        vals = [str(v) for v in logic.Meta.values]
+        graph = {}
+        for o, a, r in d['tables']['t1']:
+            graph[(o, (a,))] = r
+        for o, a, b, r in d['tables']['t2']:
+            graph[(o, (a, b))] = r
+        from ..extract.probe import OPNAME
+        for oper in Operator:
+            on = OPNAME[oper]
+            if (on, tuple(vals[:1] * oper.arity)) not in graph:
+                continue            # modal operators have no truth table row in the regenerated graph
+            for where, M in (('class', logic.Model), ('instance', logic.Model())):
+                for rev in (False, True):
+                    try:
+                        tt = M.truth_table(oper, reverse=rev)
+                        pairs = list(zip(tt.inputs, tt.outputs))
+                        mp = dict(tt.mapping)
+                    except Exception as e:  # noqa
+                        ctx.fail(f'C07:published:{lg}:{oper.name}:raises', f'{lg}: Model.truth_table({oper.name}, reverse={rev}) on the {where} raised '
+                                 f'{type(e).__name__}: {e}', dict(logic=lg, operator=oper.name, reverse=rev, where=where))
+                        continue
+                    n += len(pairs)
+                    want = [tuple(x) for x in itertools.product(vals[::-1] if rev else vals, repeat=oper.arity)]
+                    got_inputs = [tuple(str(v) for v in i) for i in tt.inputs]
+                    bad = None
+                    if got_inputs != want:
+                        bad = f'inputs are {got_inputs[:4]}…, expected every value tuple once in {"descending" if rev else "ascending"} order'
+                    else:
+                        for i, o_ in pairs:
+                            k = tuple(str(v) for v in i)
+                            if str(o_) != graph[(on, k)]:
+                                bad = f'row {k} is published with output {o_}, the truth function gives {graph[(on, k)]}'
+                                break
+                        else:
+                            for i, o_ in mp.items():
+                                k = tuple(str(v) for v in i)
+                                if str(o_) != graph[(on, k)]:
+                                    bad = f'mapping[{k}] = {o_}, the truth function gives {graph[(on, k)]}'
+                                    break
+                    if bad:
+                        ctx.fail(f'C07:published:{lg}:{oper.name}:{"reversed" if rev else "plain"}',
+                                 f'{lg}: Model.truth_table({oper.name}, reverse={rev}) on the {where}: {bad}',
+                                 dict(logic=lg, operator=oper.name, reverse=rev, where=where, detail=bad))
+    return n
+
+
 def run(ctx: Ctx):
     data = logicobl.regenerate()
     cats = dict(tables_spec=h_tables_spec, defined_ops=h_defined, spec_defined=h_simple('spec_defined'),
@@ -114,6 +172,7 @@ def run(ctx: Ctx):
                                                   if ('not a function of the value set' in issue or 'FATAL' in issue or 'fold probe' in issue) else None))
     logicobl.decide_rows(ctx, cats, THMS)
     nrows = base_rows(ctx, data)
+    npub = published_tables(ctx, data)
     # coverage: how many table rows were compared (measured from the regenerated data)
     rows = 0
     for lg, d in data.items():
@@ -129,7 +188,7 @@ def run(ctx: Ctx):
     ctx.coverage['evaluations'] = rows + nrows
     ctx.add_cov(exhaustive=True, rule='every (logic, operator, value tuple) and every (logic, quantifier|modal, value set) row of the '
                 'regenerated tables, enumerated completely; distinct = distinct (logic, operator, inputs) rows',
-                table_rows=rows, base_rows_compared=nrows)
+                table_rows=rows, base_rows_compared=nrows, published_table_rows_compared=npub)
     ctx.sample(dict(logic='K3W', row=data['K3W']['tables']['t2'][4] if 'K3W' in data else None))
     ctx.sample(dict(logic='FDE', known_deviation='Conjunction(N,B): code N, documented F'))
     ctx.assumptions += ['documented tables = Ptx/Sem/Spec.lean, transcribed from the doc prose and cited literature, not from the code',
